@@ -116,6 +116,10 @@ class ProtoSub(Proto):  # explicit implementation
         return 2
 
 
+class Root:  # the role of the root model in end-to-end worlds (so that localised e2e cases replay here)
+    pass
+
+
 def _some_func(a, b):  # owner of InputFuncFieldLoc locations
     return a, b
 
@@ -234,7 +238,7 @@ class World:
 
 
 W0 = World({"A": A, "B": B, "SubA": SubA, "Abs": Abs, "AbsSub": AbsSub, "Impl": Impl, "Proto": Proto,
-            "ProtoImpl": ProtoImpl, "ProtoSub": ProtoSub})
+            "ProtoImpl": ProtoImpl, "ProtoSub": ProtoSub, "Root": Root})
 W0.self_check()
 
 
